@@ -6542,22 +6542,23 @@ size_t ZSTD_compress2(ZSTD_CCtx* cctx,
 }
 
 /* ZSTD_validateSequence() :
- * @offCode : is presumed to follow format required by ZSTD_storeSeq()
+ * @rawOffset : the offset as provided in the ZSTD_Sequence (before any repcode substitution)
+ * @posInSrc : position of the start of the match
  * @returns a ZSTD error code if sequence is not valid
  */
 static size_t
-ZSTD_validateSequence(U32 offCode, U32 matchLength, U32 minMatch,
+ZSTD_validateSequence(U32 rawOffset, U32 matchLength, U32 minMatch,
                       size_t posInSrc, U32 windowLog, size_t dictSize, int useSequenceProducer)
 {
     U32 const windowSize = 1u << windowLog;
-    /* posInSrc represents the amount of data the decoder would decode up to this point.
+    /* posInSrc represents the amount of data the decoder would decode up to the start of this match.
      * As long as the amount of data decoded is less than or equal to window size, offsets may be
      * larger than the total length of output decoded in order to reference the dict, even larger than
      * window size. After output surpasses windowSize, we're limited to windowSize offsets again.
      */
     size_t const offsetBound = posInSrc > windowSize ? (size_t)windowSize : posInSrc + (size_t)dictSize;
     size_t const matchLenLowerBound = (minMatch == 3 || useSequenceProducer) ? 3 : 4;
-    RETURN_ERROR_IF(offCode > OFFSET_TO_OFFBASE(offsetBound), externalSequences_invalid, "Offset too large!");
+    RETURN_ERROR_IF(rawOffset == 0 || rawOffset > offsetBound, externalSequences_invalid, "Offset too large!");
     /* Validate maxNbSeq is large enough for the given matchLength and minMatch */
     RETURN_ERROR_IF(matchLength < matchLenLowerBound, externalSequences_invalid, "Matchlength too small for the minMatch");
     return 0;
@@ -6609,6 +6610,18 @@ ZSTD_copySequencesToSeqStoreExplicitBlockDelim(ZSTD_CCtx* cctx,
         U32 const matchLength = inSeqs[idx].matchLength;
         U32 offBase;
 
+        /* lengths are added as size_t : a U32 sum could wrap around */
+        RETURN_ERROR_IF((size_t)litLength + (size_t)matchLength > (size_t)(iend - ip), externalSequences_invalid,
+                        "Sequence is longer than the block");
+        if (cctx->appliedParams.validateSequences) {
+            /* validate the raw sequence, at the position where its match starts, before using it */
+            FORWARD_IF_ERROR(ZSTD_validateSequence(inSeqs[idx].offset, matchLength, cctx->appliedParams.cParams.minMatch,
+                                                seqPos->posInSrc + litLength,
+                                                cctx->appliedParams.cParams.windowLog, dictSize, ZSTD_hasExtSeqProd(&cctx->appliedParams)),
+                                                "Sequence validation failed");
+            seqPos->posInSrc += (size_t)litLength + matchLength;
+        }
+
         if (externalRepSearch == ZSTD_ps_disable) {
             offBase = OFFSET_TO_OFFBASE(inSeqs[idx].offset);
         } else {
@@ -6618,12 +6631,6 @@ ZSTD_copySequencesToSeqStoreExplicitBlockDelim(ZSTD_CCtx* cctx,
         }
 
         DEBUGLOG(6, "Storing sequence: (of: %u, ml: %u, ll: %u)", offBase, matchLength, litLength);
-        if (cctx->appliedParams.validateSequences) {
-            seqPos->posInSrc += litLength + matchLength;
-            FORWARD_IF_ERROR(ZSTD_validateSequence(offBase, matchLength, cctx->appliedParams.cParams.minMatch, seqPos->posInSrc,
-                                                cctx->appliedParams.cParams.windowLog, dictSize, ZSTD_hasExtSeqProd(&cctx->appliedParams)),
-                                                "Sequence validation failed");
-        }
         RETURN_ERROR_IF(idx - seqPos->idx >= cctx->seqStore.maxNbSeq, externalSequences_invalid,
                         "Not enough memory allocated. Try adjusting ZSTD_c_minMatch.");
         ZSTD_storeSeq(&cctx->seqStore, litLength, ip, iend, offBase, matchLength);
@@ -6750,18 +6757,23 @@ ZSTD_copySequencesToSeqStoreNoBlockDelim(ZSTD_CCtx* cctx, ZSTD_sequencePosition*
                 break;
             }
         }
+        /* lengths are added as size_t : a U32 sum could wrap around */
+        RETURN_ERROR_IF((size_t)litLength + (size_t)matchLength > (size_t)(iend - ip), externalSequences_invalid,
+                        "Sequence is longer than the block");
+        if (cctx->appliedParams.validateSequences) {
+            /* validate the raw sequence, at the position where its match starts, before using it */
+            FORWARD_IF_ERROR(ZSTD_validateSequence(rawOffset, matchLength, cctx->appliedParams.cParams.minMatch,
+                                                   seqPos->posInSrc + litLength,
+                                                   cctx->appliedParams.cParams.windowLog, dictSize, ZSTD_hasExtSeqProd(&cctx->appliedParams)),
+                                                   "Sequence validation failed");
+            seqPos->posInSrc += (size_t)litLength + matchLength;
+        }
         /* Check if this offset can be represented with a repcode */
         {   U32 const ll0 = (litLength == 0);
             offBase = ZSTD_finalizeOffBase(rawOffset, updatedRepcodes.rep, ll0);
             ZSTD_updateRep(updatedRepcodes.rep, offBase, ll0);
         }
 
-        if (cctx->appliedParams.validateSequences) {
-            seqPos->posInSrc += litLength + matchLength;
-            FORWARD_IF_ERROR(ZSTD_validateSequence(offBase, matchLength, cctx->appliedParams.cParams.minMatch, seqPos->posInSrc,
-                                                   cctx->appliedParams.cParams.windowLog, dictSize, ZSTD_hasExtSeqProd(&cctx->appliedParams)),
-                                                   "Sequence validation failed");
-        }
         DEBUGLOG(6, "Storing sequence: (of: %u, ml: %u, ll: %u)", offBase, matchLength, litLength);
         RETURN_ERROR_IF(idx - seqPos->idx >= cctx->seqStore.maxNbSeq, externalSequences_invalid,
                         "Not enough memory allocated. Try adjusting ZSTD_c_minMatch.");
